@@ -1170,6 +1170,11 @@ func (p *parser) typeAliasDecl() ast.Declaration {
 
 	p.consumeSeq(token.DOT)
 
+	if underlying == nil { // do not declare a type without underlying type (the error was already reported)
+		p.err(ddperror.SYN_EXPECTED_TYPENAME, underlyingStart.Range, "Es wurde ein Typname erwartet")
+		return &ast.BadDecl{Err: p.lastError, Tok: *begin, Mod: p.module}
+	}
+
 	decl := &ast.TypeAliasDecl{
 		Range:           token.NewRange(begin, p.previous()),
 		Tok:             *begin,
@@ -1211,6 +1216,11 @@ func (p *parser) typeDefDecl() ast.Declaration {
 	}
 
 	p.consumeSeq(token.DOT)
+
+	if underlying == nil { // do not declare a type without underlying type (the error was already reported)
+		p.err(ddperror.SYN_EXPECTED_TYPENAME, underlyingStart.Range, "Es wurde ein Typname erwartet")
+		return &ast.BadDecl{Err: p.lastError, Tok: *begin, Mod: p.module}
+	}
 
 	decl := &ast.TypeDefDecl{
 		Range:           token.NewRange(begin, p.previous()),
